@@ -115,3 +115,14 @@ Theorem C20_no_lock_in_vocabulary : forall c : call,
   | CRename _ _ | CLink _ _ | CUnlink _ | CMkdir _ | COpenDir _ | CReadDir _ | CCloseDir _ => True
   end.
 Proof. intros c. destruct c; exact I. Qed.
+
+(** Choosing between a key's two shards, and keeping the in-memory load estimates, makes no
+    filesystem call at all (all responses): the estimates are consulted, never the directories. *)
+From Kismet Require Import Spec.ClassMon Spec.Calm.
+Theorem C20_choosing_a_shard_makes_no_call : forall h n t ids u,
+  allc (fun _ => false) (sort_by_load h n t ids) anyc /\ allc (fun _ => false) (update_estimate h (fst ids) u) anyc.
+Proof.
+  intros h n t ids u. split.
+  - unfold sort_by_load. allc_auto.
+  - unfold update_estimate. allc_auto.
+Qed.
